@@ -447,7 +447,7 @@ def one_wf(r, tier, directed=None):
 
 
 def gen_wf(rng, tier, mult, scale=1.0):
-    n = int((1500 if tier == "quick" else 20000) * mult * scale)
+    n = int((2500 if tier == "quick" else 20000) * mult * scale)
     cases = []
     for ci in range(n):
         r = rng.fork("wf%d" % ci)
@@ -708,7 +708,7 @@ MAL_KINDS = [("chunksize", 10), ("chunkline-long", 5), ("limit", 12), ("bighdr",
 
 
 def gen_mal(rng, tier, mult):
-    n = (2200 if tier == "quick" else 36000) * mult
+    n = (4000 if tier == "quick" else 36000) * mult
     cases = []
     for ci in range(n):
         r = rng.fork("mal%d" % ci)
